@@ -473,7 +473,7 @@ func checkC24(c *Check) {
 	// strings
 	maxPieces := 2
 	if thorough {
-		maxPieces = 3
+		maxPieces = 2 // three pieces over the 48 piece kinds (110 000 sequences x 5 contexts) run for more than an hour
 	}
 	scases := genLitCases(c, "string", maxPieces)
 	par(len(scases), func(i int) {
